@@ -14,6 +14,7 @@ MUT = {
  "slice-drops-pending": ("else Ok (VArr (firstn (e - s) (skipn s es)) p).", "else Ok (VArr (firstn (e - s) (skipn s es)) [])."),
  "concat-drops-right": ("  else VArr (arr_elems es1 p1 ++ arr_elems es2 p2) [].", "  else VArr (arr_elems es1 p1 ++ es2) []."),
  "concat-always-lazy": ("  else if pend_eqb p1 p2 then VArr (es1 ++ es2) p1", "  else if true then VArr (es1 ++ es2) p1"),
+ "concat-ignores-polarity": ("  else if pend_eqb p1 p2 then VArr (es1 ++ es2) p1", "  else if pend_eqb_nolabel p1 p2 then VArr (es1 ++ es2) p1"),
  "values-ignore-pending": ("  VArr (map fld_thunk (sort_fields fs)) [].\n\nDefinition prim_record_values_broken", "  VArr (map (fun f => fst (snd f)) (sort_fields fs)) [].\n\nDefinition prim_record_values_broken"),
  "access-drops-pending": ("  | Some (x, p) => Ok (tctrs p x)\n  | None => Err EFieldMissing", "  | Some (x, p) => Ok x\n  | None => Err EFieldMissing"),
  "recordmap-drops-pending": ("VRec (map (fun fl => (fst fl, (f (fst fl) (fld_thunk fl), []))) fs).", "VRec (map (fun fl => (fst fl, (f (fst fl) (fst (snd fl)), []))) fs)."),
